@@ -709,6 +709,9 @@ Definition obs_of (p : res * state) : outcome * bytes * bytes := (r_oc (fst p), 
 Definition obs_nolog (p : res * state) : outcome * bytes := (r_oc (fst p), r_out (fst p)).
 Definition in_domain (l : list (res * state)) : bool :=
   forallb (fun p => match r_oc (fst p) with OVal _ => true | _ => false end) l.
+(* no input ran out of fuel *)
+Definition finished (l : list (res * state)) : bool :=
+  forallb (fun p => match r_oc (fst p) with OFuel => false | _ => true end) l.
 
 (* ---- the fragment on which cache on/off provably agree ---- *)
 Fixpoint mem_ident (x : ident) (l : list ident) : bool :=
